@@ -9,9 +9,17 @@
 (* The history is the witness (hidden by VIEW) emitted for replay with real git.      *)
 EXTENDS GitRef, Json
 
-CONSTANTS MaxCommits, MaxOps
+CONSTANTS MaxCommits, MaxOps,
+          ModeDigits    \* "any": the summary expression accepts `mode` followed by any six digits (repaired);
+                        \* "100ddd": as shipped, only regular-file modes - a symbolic link (120000) is not recognised
 
 Paths == {"a.txt", "d/b.txt", "my f.txt"}
+\* a.txt is created executable (git prints ` create mode 100755 a.txt`, the others 100644); `chmod` flips that bit
+\* (` mode change 100755 => 100644 a.txt`: one numstat line 0 0 and a summary line that names no pending path)
+ExecPaths == {"a.txt"}
+\* ln is a symbolic link (` create mode 120000 ln`, numstat 1 0: its content is the target path)
+LinkPaths == {"ln"}
+ModeClass(p) == IF p \in LinkPaths THEN "link" ELSE "file"
 RenameTargets == {"d/c.txt", "r.txt"}          \* d/b.txt -> d/c.txt prints as d/{b.txt => c.txt}; -> r.txt prints as d/b.txt => r.txt
 Authors == {"Ann", "B C"}
 Subjects == {"plain words", "fix [abc1234] 2020-01-02 by Ann: x", "feat(x): add"}
@@ -38,22 +46,26 @@ RevOf(i) == <<"aaaaaa1", "bbbbbb2", "cccccc3", "dddddd4">>[i]
 Notation(op) == IF op.to = "d/c.txt" THEN "d/{b.txt => c.txt}" ELSE op.path \o " => " \o op.to
 ChangeOf(op) ==
   CASE op.op = "add"    -> [file |-> op.path, added |-> op.add, deleted |-> 0, mode |-> "create", sum |-> "create"]
+    [] op.op = "addlink" -> [file |-> op.path, added |-> 1, deleted |-> 0, mode |-> "create", sum |-> "create"]
     [] op.op = "modify" -> [file |-> op.path, added |-> op.add, deleted |-> op.del, mode |-> "", sum |-> ""]
     [] op.op = "delete" -> [file |-> op.path, added |-> 0, deleted |-> op.del, mode |-> "delete", sum |-> "delete"]
     [] op.op = "rename" -> [file |-> Notation(op), added |-> 0, deleted |-> 0, mode |-> "", sum |-> "rename"]
+    [] op.op = "chmod"  -> [file |-> op.path, added |-> 0, deleted |-> 0, mode |-> "", sum |-> "modechange"]
 
 LinesOf(c, cs) ==
   <<[k |-> "header", rev |-> c.rev, author |-> c.author, date |-> c.date, subject |-> c.subject]>> \o
   [i \in DOMAIN cs |-> [k |-> "numstat", file |-> cs[i].file, added |-> cs[i].added, deleted |-> cs[i].deleted]] \o
-  (LET ss == SelectSeq(cs, LAMBDA x : x.sum # "") IN [i \in DOMAIN ss |-> [k |-> "summary", mode |-> ss[i].sum, file |-> ss[i].file]]) \o
+  (LET ss == SelectSeq(cs, LAMBDA x : x.sum # "") IN [i \in DOMAIN ss |-> [k |-> "summary", mode |-> ss[i].sum, file |-> ss[i].file, cls |-> ModeClass(ss[i].file)]]) \o
   (IF cs = <<>> THEN <<>> ELSE <<[k |-> "blank"]>>)
 
-Op(o, p, t, a, d) == [op |-> o, path |-> p, to |-> t, add |-> a, del |-> d, notation |-> ""]
+Op(o, p, t, a, d) == [op |-> o, path |-> p, to |-> t, add |-> a, del |-> d, notation |-> "", exec |-> (o = "add" /\ p \in ExecPaths)]
 \* ops applicable to the repository state (at most one op per path in a commit)
 OneOp(lv) ==
   {Op("add", p, "", a, 0) : p \in Paths \ lv, a \in {1, 2}} \cup
-  {Op("modify", p, "", 1, d) : p \in lv, d \in {0, 1}} \cup
+  {Op("addlink", p, "", 1, 0) : p \in LinkPaths \ lv} \cup
+  {Op("modify", p, "", 1, d) : p \in lv \ LinkPaths, d \in {0, 1}} \cup
   {Op("delete", p, "", 0, 1) : p \in lv} \cup
+  {Op("chmod", p, "", 0, 0) : p \in lv \cap ExecPaths} \cup
   {Op("rename", "d/b.txt", t, 0, 0) : t \in {x \in RenameTargets : "d/b.txt" \in lv /\ x \notin lv}}
 Touches(op) == {op.path} \cup (IF op.to = "" THEN {} ELSE {op.to})
 OpLists(lv) ==
@@ -61,7 +73,7 @@ OpLists(lv) ==
   (IF MaxOps < 2 THEN {} ELSE {p \in {<<o1, o2>> : o1 \in OneOp(lv), o2 \in OneOp(lv)} : Touches(p[1]) \cap Touches(p[2]) = {}})
 Apply(lv, ops) ==
   (lv \ {ops[i].path : i \in {j \in DOMAIN ops : ops[j].op \in {"delete", "rename"}}})
-    \cup {ops[i].path : i \in {j \in DOMAIN ops : ops[j].op = "add"}}
+    \cup {ops[i].path : i \in {j \in DOMAIN ops : ops[j].op \in {"add", "addlink"}}}
     \cup {ops[i].to : i \in {j \in DOMAIN ops : ops[j].op = "rename"}}
 
 \* git numstat lists paths in sorted order; the order is irrelevant to the property (changes are compared as a set)
@@ -98,14 +110,18 @@ ParseNumstat ==
   /\ pos' = pos + 1
   /\ UNCHANGED <<live, n, lines, cur, fchanges, commits, infos, expected, hist>>
 
-\* ParseLog, summary line -> buildChangeMode: sets Mode on the pending change of that path;
-\* a `delete` line for an unknown path appends a change; rename/mode-change lines name no pending path
+\* ParseLog, summary line -> buildChangeMode: ` create mode 100644 path`. The expression is
+\*   \s(\w{1,6})\s(mode <six digits>)?\s?(.*) ; when the optional mode group does not match, the text `mode 120000 path`
+\* is taken for the path. Sets Mode on the pending change of that path; a `delete` line for an unknown path appends
+\* a change; rename/mode-change lines name no pending path
+Recognised(cls) == ModeDigits = "any" \/ cls = "file"
+NamedBy(ln) == IF ln.mode \in {"create", "delete"} /\ ~Recognised(ln.cls) THEN "mode 120000 " \o ln.file ELSE ln.file
 ParseSummary ==
   /\ pos <= Len(lines) /\ Line.k = "summary"
-  /\ IF Line.mode \in {"create", "delete"} /\ Line.file \in DOMAIN fmap
-     THEN /\ fmap' = [fmap EXCEPT ![Line.file].mode = Line.mode] /\ UNCHANGED fchanges
+  /\ IF Line.mode \in {"create", "delete"} /\ NamedBy(Line) \in DOMAIN fmap
+     THEN /\ fmap' = [fmap EXCEPT ![NamedBy(Line)].mode = Line.mode] /\ UNCHANGED fchanges
      ELSE IF Line.mode = "delete"
-          THEN /\ fchanges' = Append(fchanges, [file |-> Line.file, added |-> 0, deleted |-> 0, mode |-> "delete"]) /\ UNCHANGED fmap
+          THEN /\ fchanges' = Append(fchanges, [file |-> NamedBy(Line), added |-> 0, deleted |-> 0, mode |-> "delete"]) /\ UNCHANGED fmap
           ELSE UNCHANGED <<fmap, fchanges>>
   /\ pos' = pos + 1
   /\ UNCHANGED <<live, n, lines, cur, forder, commits, infos, expected, hist>>
